@@ -1213,8 +1213,8 @@ class HttpHeaderFieldValueExpectCT(FieldsCommaSeparated):
         validator=attr.validators.instance_of(HttpHeaderFieldValueComponentMaxAge)
     )
     enforce = attr.ib(
-        converter=attr.converters.optional(HttpHeaderFieldValueExpectCTComponentEnforce.convert),
-        validator=attr.validators.optional(attr.validators.instance_of(HttpHeaderFieldValueExpectCTComponentEnforce)),
+        converter=HttpHeaderFieldValueExpectCTComponentEnforce.convert,
+        validator=attr.validators.instance_of(HttpHeaderFieldValueExpectCTComponentEnforce),
         default=False
     )
     report_uri = attr.ib(
